@@ -36,7 +36,7 @@ ASSUMPTIONS = [
 FLOORS = {"triples_compared": (6000, 100000), "fail_together": (1500, 30000), "succeed_together": (2000, 40000), "warm_triples": (2000, 40000),
           "partial_body_cases": (200, 4000), "validate_keys_body_checks": (6000, 100000),
           "datasetclass_triples": (1000, 20000), "datasetclass_fail_together": (150, 3000),
-          "pipeline_triples": (1000, 20000), "pipeline_fail_together": (50, 1000), "default_body_checks": (1200, 12000), "lazy_coalesce_triples": (96, 96), "effects_off_triples": (48, 48)}
+          "pipeline_triples": (1000, 20000), "pipeline_fail_together": (50, 1000), "default_body_checks": (1200, 12000), "lazy_coalesce_triples": (96, 96), "effects_off_triples": (48, 48), "whole_dictionary_triples": (40, 40)}
 SHARDS_QUICK = 4
 FEATURES = {"domains": False, "allopts": False}
 
@@ -256,6 +256,33 @@ def datasetclass_triples(ctx, i):
         ctx.nontrivial(spec_hash(["dc", sorted(members.items()), o]))
 
 
+def whole_dictionary(ctx):
+    """AllOptions evaluates to the WHOLE dictionary with every templated string in it resolved: on a dictionary with a
+    reference to a key that is not there evaluate() fails - and so do validate() and keys() (alone, as a dataset
+    argument, under a template parameter); on a closed dictionary all three succeed."""
+    from labrea import AllOptions, Template, dataset
+
+    def body(everything=AllOptions, a=Option("A", 0)):
+        return (sorted(everything), a)
+
+    subjects = {"AllOptions": AllOptions, "dataset(AllOptions)": dataset(body), "nocache-dataset(AllOptions)": dataset.nocache(body),
+                "template-parameter": Template("{:p:}", p=AllOptions >> (lambda d: sorted(d)))}
+    dicts = [{}, {"A": 1}, {"A": "{B}", "B": 2}, {"A": "{B}"}, {"A": 1, "D": "{Q}"}, {"S": {"X": "{T.X}"}}, {"S": {"X": "{T.X}"}, "T": {"X": 3}}, {"L": ["{A}"]}, {"L": ["{A}"], "A": "a"},
+             {"C": {"k": ["x{Q}y"]}}]
+    for name, subject in subjects.items():
+        for o in dicts:
+            res = {op: observe(getattr(subject, op), copy.deepcopy(o)) for op in ("validate", "keys", "evaluate")}
+            ctx.evaluations += 3
+            ctx.count("whole_dictionary_triples")
+            if len({v[0] == "ok" for v in res.values()}) != 1:
+                ctx.violation("operations-disagree", f"{name} on {o}: validate {short(res['validate'], 70)} / keys {short(res['keys'], 70)} / evaluate {short(res['evaluate'], 70)}",
+                              {"family": "whole-dictionary", "subject": name, "options": o})
+                return
+            if res["evaluate"][0] != "ok":
+                ctx.count("whole_dictionary_fail_together")
+    ctx.nontrivial(spec_hash(["whole-dictionary"]))
+
+
 def lazy_coalesce_members(ctx):
     """Coalesce members whose value is lazy (a bare Iter / Map / Map.values): the member evaluate() uses is the one
     validate() and keys() chose - consuming the result cannot fail for an option validate() did not ask for."""
@@ -379,6 +406,7 @@ def run(ctx):
         coalesce_reproducer(ctx)
         lazy_coalesce_members(ctx)
         effects_switched_off(ctx)
+        whole_dictionary(ctx)
     # (a dict-valued option referenced mid-string is the recorded C09 finding: str(dict) has braces)
     dicts = [d for d in directed.dictionaries() if U.closed(d) and not any(isinstance(d.get(k), dict) for k in ("A", "B", "C"))
              and not any(isinstance(v2, dict) for v in d.values() if isinstance(v, dict) for v2 in v.values())]
@@ -413,7 +441,9 @@ def run(ctx):
 
 def replay(ctx, rep):
     w = rep["witness"]
-    if w.get("family") == "effects-off":
+    if w.get("family") == "whole-dictionary":
+        whole_dictionary(ctx)
+    elif w.get("family") == "effects-off":
         effects_switched_off(ctx)
     elif w.get("family") == "lazy-coalesce":
         lazy_coalesce_members(ctx)
